@@ -63,6 +63,7 @@ type stallConn struct {
 	got       []byte
 	closed    bool
 	closeCh   chan struct{}
+	auto      bool   // a healthy peer: every write is taken at once
 	in        []byte // bytes from the player that the session has not read yet
 	rdParked  bool   // the session's read loop waits in Read with nothing to read
 }
@@ -107,6 +108,13 @@ func (c *stallConn) feed(b []byte) error {
 func (c *stallConn) Write(b []byte) (int, error) {
 	c.mu.Lock()
 	defer c.mu.Unlock()
+	if c.auto {
+		if c.closed {
+			return 0, errors.New("use of closed connection")
+		}
+		c.got = append(c.got, b...)
+		return len(b), nil
+	}
 	c.entered++
 	c.blocked = true
 	c.cond.Broadcast()
@@ -201,9 +209,10 @@ func (c *stallConn) waitFor(pred func() bool) error {
 // one consumer = one real lal session on a stallConn
 
 type c15Cons struct {
-	kind    string // base kind: rtmp rtmpv flv wsflv ts wsts rtp wsrtp
-	setup   string // rtsp: one letter per track (video, audio): n u t b
-	att     *int64 // connection.Write / Writev calls made by the session
+	kind    string                // base kind: rtmp rtmpv flv wsflv ts wsts rtp wsrtp
+	setup   string                // rtsp: one letter per track (video, audio): n u t b
+	att     *int64                // connection.Write / Writev calls made by the session
+	cc      connection.Connection // the session's naza connection
 	stat    func() uint64
 	udpRecv [2]*net.UDPConn // rtsp: the player's RTP sockets (video, audio)
 	udpSrv  []*nazanet.UdpConnection
@@ -282,6 +291,7 @@ func (c *c15Cons) countWrites() {
 	field := reflect.NewAt(v.Type(), unsafe.Pointer(v.UnsafeAddr())).Elem()
 	inner := field.Interface().(connection.Connection)
 	c.att = new(int64)
+	c.cc = inner
 	field.Set(reflect.ValueOf(&c15CountConn{Connection: inner, n: c.att}))
 	if c.rdStat == nil {
 		// http-flv / http-ts: the session's GetStat does not look at the connection
@@ -813,6 +823,7 @@ func c15Group(a []string) string {
 		for _, c := range cs {
 			c.cleanup()
 		}
+		c15DetachInput(g)
 	}()
 	for _, ch := range a[1] {
 		var c *c15Cons
@@ -890,6 +901,8 @@ func c15Group(a []string) string {
 				if i < len(cs) {
 					err = cs[i].disposeAndSettle()
 				}
+			case 'I':
+				err = c15AttachInput(g, op[1:])
 			case 'i':
 				err = c15Inbound(cs, op[1:])
 			case 's':
